@@ -196,6 +196,22 @@ def c33_judge(timeout, ops, ans):
                 aff = next((a for (l, a, r) in op[1] if l == nm // 16), None)
                 if aff is not None and aff in pw and pw[aff]["available"] and w != aff:
                     fails.append(tag + "pipeline %s is pinned to available worker w%d but planned on w%d" % (pn(nm), aff, w))
+        if name == "deploy" and res.startswith("g"):
+            gnew = int(res[1:])
+            for g in st["groups"]:
+                if g["g"] != gnew:
+                    continue
+                for p in g["pl"]:
+                    w = p["w"]
+                    if not (w in pw and pw[w]["available"]):
+                        fails.append(tag + "new pipeline %s placed on w%d which is %s" % (pn(p["name"]), w, "not registered" if w not in pw else "status %s run %d max %d" % (pw[w]["st"], pw[w]["run"], pw[w]["max"])))
+                    aff = next((a for (l, a, r) in op[1] if l == p["name"] // 16), None)
+                    if aff is not None and aff in pw and pw[aff]["available"] and w != aff:
+                        fails.append(tag + "pipeline %s is pinned to available worker w%d but placed on w%d" % (pn(p["name"]), aff, w))
+        if name == "manual_migrate" and res == "b1":
+            tgt = op[3]
+            if not placeable(tgt):
+                fails.append(tag + "migration of %s onto w%d which is %s" % (pn(op[1]), tgt, "not registered" if tgt not in pw else "status " + pw[tgt]["st"]))
         if name == "plan_migrate" and res.startswith("plan"):
             tgt = op[3]
             if not placeable(tgt):
@@ -464,3 +480,93 @@ def shrink_ops(ops, still_fails):
                 changed = True
                 break
     return ops
+
+
+# ---------------------------------------------------------------- REST mode (api.rs handlers)
+def to_api_ops(ops):
+    """Turn a non-interleaved history (every plan immediately followed by its commit) into REST-level
+    operations: deploy / teardown / manual_migrate are single requests."""
+    out = []
+    i = 0
+    while i < len(ops):
+        o = ops[i]
+        nxt = ops[i + 1] if i + 1 < len(ops) else None
+        if o[0] == "plan_deploy" and nxt and nxt[0] == "commit_deploy":
+            out.append(["deploy", o[1], nxt[2]])
+            i += 2
+        elif o[0] == "plan_teardown" and nxt and nxt[0] == "commit_teardown":
+            out.append(["teardown", o[1]])
+            i += 2
+        elif o[0] == "plan_migrate" and nxt and nxt[0] == "commit_migrate":
+            out.append(["manual_migrate", o[1] // 16 * 16, o[2], o[3], nxt[2]])
+            i += 2
+        elif o[0] == "migrate":
+            out.append(["manual_migrate", o[1] // 16 * 16, o[2], o[3], o[4]])
+            i += 1
+        elif o[0].startswith("plan_") or o[0].startswith("commit_"):
+            i += 1          # a stray phase: not expressible as one request
+        else:
+            out.append(o)
+            i += 1
+    return out
+
+
+def api_expand(ops):
+    """REST-level ops -> (model ops, for each REST op the indices of its model ops)."""
+    mops = []
+    idx = []
+    nplans = 0
+    for o in ops:
+        if o[0] == "deploy":
+            mops += [["plan_deploy", o[1]], ["commit_deploy", nplans, o[2]]]
+            idx.append((len(mops) - 2, len(mops) - 1))
+            nplans += 1
+        elif o[0] == "teardown":
+            mops += [["plan_teardown", o[1]], ["commit_teardown", nplans]]
+            idx.append((len(mops) - 2, len(mops) - 1))
+            nplans += 1
+        elif o[0] == "manual_migrate":
+            mops += [["plan_migrate", o[1], o[2], o[3]], ["commit_migrate", nplans, o[4]]]
+            idx.append((len(mops) - 2, len(mops) - 1))
+            nplans += 1
+        else:
+            mops.append(o)
+            idx.append((len(mops) - 1,))
+    return mops, idx
+
+
+def run_impl_api(binpath, cases):
+    return harness.run_jsonl(binpath, [{"kind": "coord", "via": "api", "timeout": t, "ops": o} for t, o in cases])
+
+
+def run_model_api(run, tag, cases, answers):
+    """Model strings aligned with the REST-level steps (a request = plan phase + commit phase of the model)."""
+    exprs = []
+    meta = []
+    for k, ((t, ops), ans) in enumerate(zip(cases, answers)):
+        if "steps" not in ans:
+            continue
+        mops, idx = api_expand(ops)
+        steps = []
+        for ix, st in zip(idx, ans["steps"]):
+            steps += [st] * len(ix)
+        exprs.append(g_case(t, mops, steps))
+        meta.append((k, idx))
+    out = [None] * len(cases)
+    try:
+        res = coqtools.coq_eval(tag, IMPORTS, exprs, shard=max(10, min(120, len(exprs) // 16 + 1)))
+    except RuntimeError as e:
+        run.tie_broken("model evaluation (coqc cases)", str(e))
+        return out
+    for (k, idx), r in zip(meta, res):
+        msteps = r.split("|") if r else []
+        view = []
+        for ix in idx:
+            last = msteps[ix[-1]]
+            if len(ix) == 2:
+                first_res = msteps[ix[0]].split("~", 1)[0]
+                if first_res.startswith("err"):
+                    last = first_res + "~" + last.split("~", 1)[1]
+            view.append(last)
+        out[k] = "|".join(view)
+    return out
